@@ -36,6 +36,15 @@ def run(ctx, b, broken):
             su.violation(text, f"accepted although {why}", {"observed": io[:300]})
         elif not io.startswith("E" + US) and io != "R":
             su.violation(text, f"not rejected with ParseError ({io[:60]!r}) although {why}")
+    # recorded findings: replayed, reported as KNOWN-FINDING while they still reproduce
+    for f in ctx.findings:
+        if f.get("property") == "C18" and f.get("input"):
+            if impl_parse(f["input"]).startswith("OK"):
+                ctx.known(f["id"], f["what"])
+    for text in ["#pragmatic x\nint a;", "#pragma_once\nint a;", "#pragmas omp\nint a;", "#pragma2\nint a;", "#linear 3\nint a;", "#line3\nint a;", "# pragmax\nint a;",
+                 "void f(void){\n#pragmatic y\n}", "struct S {\n#pragma_ z\n int m; };", "#include <x.h>\nint a;", "#if 1\nint a;\n#endif", "#\nint a;", "# define X\nint a;"]:
+        ctx.count("suite:directive-names")
+        must_reject(text, "it contains a preprocessor directive other than #line / #pragma", True)
     nprog = 120 if ctx.tier == "quick" else 1500
     inj = ["@", "`", "\\", "/* c */", "// c\n", "'", "#define X 1\n", "#include <x.h>\n", "$#", "\"unterminated"]
     for g, toks, exp in gen_cases(ctx, nprog, size=(1, 2)):
